@@ -138,7 +138,18 @@ func runC11(c *Ctx) {
 			c.Check("C11-R1", name+"-deferred-rollback-unconditional", dcl.Pos(), len(hits) == 0,
 				"the deferred rollback of db."+name+" is skipped under a condition other than 'no transaction was opened' (e.g. it depends on the error variable, which is still nil when the function panics)")
 		}
-		// error path of f
+		// error path of f: the function's own result must be tested directly (no intermediate re-mapping of the error)
+		nTests := 0
+		for _, b := range fn.Blocks {
+			for si := range b.Succs {
+				f := edgeFactOf(b, si)
+				if f != nil && loadIsResultOf(f.V, fcall) && (f.Kind == "nil" || f.Kind == "nonnil") {
+					nTests++
+				}
+			}
+		}
+		c.Check("C11-R1", name+"-tests-function-error-directly", fcall.Pos(), nTests >= 2,
+			"db."+name+" does not branch directly on the supplied function's error (it is re-mapped or filtered first): some error values would be committed instead of rolled back")
 		for _, b := range fn.Blocks {
 			for si := range b.Succs {
 				f := edgeFactOf(b, si)
@@ -562,4 +573,16 @@ func runC11R5(c *Ctx) {
 		}
 	}
 	c.Note("C11-R5: %d type assertions to read-write walletdb interfaces found (all must be in walletdbtest)", n)
+}
+
+// errVarOf: the local variable (alloc) the call's error result is stored into, if any.
+func errVarOf(call *ssa.Call) *ssa.Alloc {
+	for _, u := range usesOf(call) {
+		if st, ok := u.(*ssa.Store); ok {
+			if a, ok := st.Addr.(*ssa.Alloc); ok {
+				return a
+			}
+		}
+	}
+	return nil
 }
